@@ -298,3 +298,11 @@ TEXT["C06"].update(
 TEXT["C15"].update(
     engine="verus+kani+bounded",
     level=TEXT["C15"]["level"] + " Kani (black box, bounded): Domain::ends_with on names and suffixes of up to 2 labels of 1..2 symbolic octets -- whole labels, equal up to ASCII letter case only.")
+
+TEXT["C02"].update(
+    engine="verus+kani+bounded",
+    level=TEXT["C02"]["level"] + " Bounded (engine B, real parse_policy on YAML fragments): a policy's address set is exactly the union of its apply-address / apply-range / apply-subnet keys in every key order, minus what a sub-policy reserves (30 fragments); ranges with equal, reversed and octet-crossing ends.")
+
+TEXT["C17"].update(
+    engine="verus+kani+bounded",
+    level=TEXT["C17"]["level"] + " Bounded (engine B, real serialise_router_advertisement read back by an independent RFC 4861 option walker): captive-portal URLs of every length 0..=2050 (type 37, next multiple of 8, zero padding, nothing past 2038 octets), 510 DNS search lists, 0..=130 recursive DNS servers (split at 127).")
